@@ -119,6 +119,9 @@ pub const MODE_COUNT_AT: u64 = 4; // then count()
 pub const MODE_LAST_AT: u64 = 5; // then last()
 pub const MODE_NTH_AT: u64 = 6; // nth(prefix) first, then next() to the end
 pub const MODES_PROVIDED: [u64; 4] = [MODE_FOLD_AT, MODE_COUNT_AT, MODE_LAST_AT, MODE_NTH_AT];
+/// `fold` whose callback panics on item number `prefix` (0-based; the panic is caught): the iterator
+/// is dropped by the unwind and must release everything it still owns exactly once.
+pub const MODE_FOLD_PANIC_AT: u64 = 7;
 /// Prefix value standing for `usize::MAX` (`nth(usize::MAX)`, i.e. `skip(usize::MAX)`: nothing is handed out).
 pub const PREFIX_MAX: u64 = 0xFF_FFFF;
 fn prefix_of(prefix: u64) -> usize {
@@ -133,7 +136,7 @@ fn prefix_of(prefix: u64) -> usize {
 pub fn iter_limit(mode: u64, prefix: u64) -> usize {
     match mode {
         MODE_CONSUME => usize::MAX,
-        MODE_NTH_AT => 0,
+        MODE_NTH_AT | MODE_FOLD_PANIC_AT => 0,
         _ => prefix as usize,
     }
 }
@@ -161,6 +164,20 @@ pub fn finish_iter<I: Iterator>(mut it: I, mode: u64, prefix: u64, sink: &mut dy
         }
         MODE_FOLD_AT => {
             it.fold((), |(), x| sink(x));
+            None
+        }
+        MODE_FOLD_PANIC_AT => {
+            let stop = prefix_of(prefix);
+            let _ = crate::util::catch(move || {
+                it.fold(0usize, |n, x| {
+                    if n == stop {
+                        // (the item in hand is dropped by the unwind, like the rest of the iterator)
+                        panic!("consumer gives up at item {}", n);
+                    }
+                    sink(x);
+                    n + 1
+                })
+            });
             None
         }
         MODE_COUNT_AT => Some(it.count()),
